@@ -19,6 +19,9 @@ boolean / string / numeric expressions on which the C16 theorems turn and which 
     k_gmap_to_cM, k_egmap_to_cM       100.0 * x
     k_gmap_from_cM, k_egmap_from_cM   0.01 * x
     k_gmap_units_M, k_gmap_units_cM   ("M","Morgans") / ("cM","centiMorgans")   (the same tuples at all eight sites)
+    k_(e)gmap_default_units_to/_from  defaults of vrnt_genpos_units of the writers / readers (a default/default round trip mixes them)
+    k_(e)gmap_ctor_passes_kind/_fill  does `__init__` hand self.spline_kind / self.spline_fill_value to build_spline?  + build_spline defaults
+    k_egmap_default_name_col_to/_from, k_egmap_file_header, k_egmap_file_optional   column names written by to_egmap / expected by from_egmap
   DenseTwoWayDHAdditiveGeneticVarianceMatrix
     k_vm_taxazfill, k_vm_traitzfill   ceil(log10(n)) + 1
     k_vm_columns          to_pandas: output column -> (label array, axis of flattenix(self.mat) that indexes it), in column order
@@ -284,6 +287,101 @@ def gmap_kernels(repo, defs):
     defs.append(P.definition("k_gmap_units_cM", [], "list String.string", slist(list(units["cM"])[0]), "unit names taken as centiMorgans (setter and to_pandas of both map classes)"))
 
 
+# ------------------------------------------------------------------------------------------------ genetic maps: defaults, constructor, egmap
+def _default(fn, name):
+    """default value (a str constant or None) of parameter `name` of fn"""
+    a = fn.args
+    pos = a.args
+    defs_ = [None] * (len(pos) - len(a.defaults)) + list(a.defaults)
+    for p_, d in list(zip(pos, defs_)) + list(zip(a.kwonlyargs, a.kw_defaults)):
+        if p_.arg == name:
+            if d is None: raise U("%s: parameter %s has no default" % (fn.name, name))
+            if isinstance(d, ast.Constant) and (isinstance(d.value, str) or d.value is None): return d.value
+            raise U("%s: default of %s is %s" % (fn.name, name, src(d)))
+    raise U("%s: no parameter %s" % (fn.name, name))
+
+
+def ostr(v):
+    return "None" if v is None else '(Some "%s"%%string)' % v
+
+
+def gmap_api_kernels(repo, defs):
+    for tag, rel, cls in (("gmap", SGM, "StandardGeneticMap"), ("egmap", EGM, "ExtendedGeneticMap")):
+        tp = P.find_function(repo, rel, cls + ".to_pandas"); fp = P.find_function(repo, rel, cls + ".from_pandas")
+        tc = P.find_function(repo, rel, cls + ".to_csv"); fc = P.find_function(repo, rel, cls + ".from_csv")
+        for what in ("vrnt_genpos_units", "vrnt_genpos_col"):
+            if _default(tp, what) != _default(tc, what) or _default(fp, what) != _default(fc, what):
+                raise U("%s: pandas and csv codecs have different defaults for %s" % (cls, what))
+        defs.append(P.definition("k_%s_default_units_to" % tag, [], "String.string", '"%s"%%string' % _default(tp, "vrnt_genpos_units"),
+                                 "%s.to_pandas / to_csv: default of vrnt_genpos_units" % cls))
+        defs.append(P.definition("k_%s_default_units_from" % tag, [], "String.string", '"%s"%%string' % _default(fp, "vrnt_genpos_units"),
+                                 "%s.from_pandas / from_csv: default of vrnt_genpos_units" % cls))
+        # __init__: if auto_build_spline: self.build_spline(<args>)   and the defaults of build_spline
+        init = P.find_function(repo, rel, cls + ".__init__")
+        calls = [n for n in ast.walk(init) if isinstance(n, ast.Call) and src(n.func) == "self.build_spline"]
+        if len(calls) != 1: raise U("%s.__init__: expected exactly one self.build_spline(...) call" % cls)
+        guard = [n for n in ast.walk(init) if isinstance(n, ast.If) and src(n.test) == "auto_build_spline" and any(c is calls[0] for c in ast.walk(n))]
+        if len(guard) != 1: raise U("%s.__init__: build_spline is not guarded by `if auto_build_spline`" % cls)
+        c = calls[0]
+        a = [src(x) for x in c.args]; kw = {k.arg: src(k.value) for k in c.keywords}
+        bs = P.find_function(repo, rel, cls + ".build_spline")
+        if [x.arg for x in bs.args.args[1:3]] != ["kind", "fill_value"]: raise U("%s.build_spline: parameters" % cls)
+        def stored(attr):      # self.<attr> = ... or self._<attr> = ... (exactly one of the two spellings, exactly once)
+            a_ = P.assignments_to(bs, "self." + attr) + P.assignments_to(bs, "self._" + attr)
+            if len(a_) != 1: raise U("%s.build_spline: %d assignments to %s" % (cls, len(a_), attr))
+            return src(a_[0].value)
+        if stored("spline_kind") != "kind" or stored("spline_fill_value") != "fill_value":
+            raise U("%s.build_spline does not store kind / fill_value" % cls)
+        kind_arg = a[0] if len(a) >= 1 else kw.get("kind"); fill_arg = a[1] if len(a) >= 2 else kw.get("fill_value")
+        for got, want in ((kind_arg, "self.spline_kind"), (fill_arg, "self.spline_fill_value")):
+            if got not in (None, want): raise U("%s.__init__: build_spline called with %s" % (cls, src(c)))
+        asg = [src(x.value) for x in P.assignments_to(init, "self.spline_kind")]
+        if asg != ["spline_kind"]: raise U("%s.__init__: self.spline_kind = %s" % (cls, asg))
+        defs.append(P.definition("k_%s_ctor_passes_kind" % tag, [], "bool", "true" if kind_arg is not None else "false",
+                                 "%s.__init__: if auto_build_spline: %s" % (cls, src(c))))
+        defs.append(P.definition("k_%s_ctor_passes_fill" % tag, [], "bool", "true" if fill_arg is not None else "false",
+                                 "%s.__init__: if auto_build_spline: %s" % (cls, src(c))))
+        defs.append(P.definition("k_%s_build_default_kind" % tag, [], "String.string", '"%s"%%string' % _default(bs, "kind"), "%s.build_spline: default of kind" % cls))
+        defs.append(P.definition("k_%s_build_default_fill" % tag, [], "String.string", '"%s"%%string' % _default(bs, "fill_value"), "%s.build_spline: default of fill_value" % cls))
+    # ExtendedGeneticMap: names of the optional columns, writer defaults versus reader defaults, and the egmap pair
+    cls = "ExtendedGeneticMap"
+    tp = P.find_function(repo, EGM, cls + ".to_pandas"); fp = P.find_function(repo, EGM, cls + ".from_pandas")
+    tc = P.find_function(repo, EGM, cls + ".to_csv")
+    for col in ("vrnt_name_col", "vrnt_fncode_col"):
+        if _default(tp, col) != _default(tc, col): raise U("%s: to_pandas / to_csv defaults of %s differ" % (cls, col))
+    defs.append(P.definition("k_egmap_default_name_col_to", [], "option String.string", ostr(_default(tp, "vrnt_name_col")), "%s.to_pandas / to_csv: default of vrnt_name_col" % cls))
+    defs.append(P.definition("k_egmap_default_name_col_from", [], "option String.string", ostr(_default(fp, "vrnt_name_col")), "%s.from_pandas: default of vrnt_name_col" % cls))
+    te = P.find_function(repo, EGM, cls + ".to_egmap")
+    calls = [n for n in ast.walk(te) if isinstance(n, ast.Call) and src(n.func) == "self.to_csv"]
+    if len(calls) != 1 or calls[0].args: raise U("to_egmap: expected exactly one self.to_csv(keywords...)")
+    kw = {k.arg: k.value for k in calls[0].keywords}
+    def kwstr(name):
+        if name in kw:
+            if isinstance(kw[name], ast.Constant) and isinstance(kw[name].value, str): return kw[name].value
+            raise U("to_egmap: %s = %s" % (name, src(kw[name])))
+        return _default(tc, name)
+    if src(kw.get("filename", ast.Name(id="?"))) != "filename" or kwstr("sep") != "\t" or kwstr("vrnt_genpos_units") not in ("M", "Morgans"):
+        raise U("to_egmap: " + src(calls[0]))
+    header = [kwstr(c) for c in ("vrnt_chrgrp_col", "vrnt_phypos_col", "vrnt_stop_col", "vrnt_genpos_col", "vrnt_name_col", "vrnt_fncode_col")]
+    defs.append(P.definition("k_egmap_file_header", [], "list String.string", slist(header), "to_egmap: column names written (%s)" % src(calls[0]).replace("\n", " ")))
+    fe = P.find_function(repo, EGM, cls + ".from_egmap")
+    calls = [n for n in ast.walk(fe) if isinstance(n, ast.Call) and src(n.func) == "cls.from_pandas"]
+    if len(calls) != 1 or calls[0].args: raise U("from_egmap: expected exactly one cls.from_pandas(keywords...)")
+    kw = {k.arg: k.value for k in calls[0].keywords}
+    for name, ix in (("vrnt_chrgrp_col", 0), ("vrnt_phypos_col", 1), ("vrnt_stop_col", 2), ("vrnt_genpos_col", 3)):
+        if src(kw.get(name, ast.Name(id="?"))) != str(ix): raise U("from_egmap: %s = %s" % (name, src(kw.get(name, ast.Name(id="?")))))
+    if src(kw.get("vrnt_genpos_units", ast.Name(id="?"))) not in ("'M'", "'Morgans'"): raise U("from_egmap: units")
+    expected = []
+    for name, ix in (("vrnt_name_col", 4), ("vrnt_fncode_col", 5)):
+        e = kw.get(name)
+        if not (isinstance(e, ast.IfExp) and src(e.body) == str(ix) and src(e.orelse) == "None" and isinstance(e.test, ast.Compare) and len(e.test.ops) == 1
+                and isinstance(e.test.ops[0], ast.In) and src(e.test.comparators[0]) == "df.columns" and isinstance(e.test.left, ast.Constant) and isinstance(e.test.left.value, str)):
+            raise U("from_egmap: %s = %s" % (name, src(e) if e is not None else None))
+        expected.append(e.test.left.value)
+    defs.append(P.definition("k_egmap_file_optional", [], "list String.string", slist(expected),
+                             "from_egmap: the optional columns 4 and 5 are read only if the header has these names"))
+
+
 # ------------------------------------------------------------------------------------------------ variance matrices (long table)
 def vm_kernels(repo, defs):
     cls = "DenseTwoWayDHAdditiveGeneticVarianceMatrix"
@@ -384,6 +482,7 @@ def translate(repo, gen_dir, classes):
     rd_kernels(repo, defs)
     nsites = slash_kernel(classes, defs)
     gmap_kernels(repo, defs)
+    gmap_api_kernels(repo, defs)
     vm_kernels(repo, defs)
     text = (P.HEADER % "harness/translate/c16_kernel.py") + \
         "From Coq Require Import ZArith Bool List String PrimFloat.\nImport ListNotations.\nLocal Open Scope Z_scope.\n\n" + "\n".join(defs)
